@@ -29,28 +29,29 @@ def merge(a, b):
     return out
 
 
+# (int-default leaves also get a value with a fractional part: the three routes must not round it differently)
 LEAF_MENU = [
     ('MSA', [0, 1500, 10000]),
-    ('MSA_HIT_BUFFER', [0, 500]),
+    ('MSA_HIT_BUFFER', [0, 500, 250.75]),
     ('MAX_HITS_OKTA0', [0, 1, 10]),
     ('MAX_HOLES_OKTA8', [0, 5]),
-    ('BASE_LVL_HEIGHT_PERC', [0, 50, 100]),
-    ('BASE_LVL_LOOKBACK_PERC', [1, 30, 50]),
+    ('BASE_LVL_HEIGHT_PERC', [0, 50, 100, 12.5]),
+    ('BASE_LVL_LOOKBACK_PERC', [1, 30, 50, 33.3]),
     ('EXCLUDE_FOR_BASE_HEIGHT_CALC', [['a'], ['a', 'b'], ['zz']]),
     ('LOWESS.frac', [0.05, 1.0]),
     ('LOWESS.it', [0, 1]),
     ('SLICING_PRMS.distance_threshold', [1e-6, 0.05, 1.0, 1.5]),
-    ('SLICING_PRMS.dt_scale', [1, 100]),
-    ('SLICING_PRMS.height_scale_kwargs.min_range', [1, 20000]),
-    ('GROUPING_PRMS.height_pad_perc', [0, 100]),
-    ('GROUPING_PRMS.dt_scale', [1, 100000]),
+    ('SLICING_PRMS.dt_scale', [1, 100, 150.5]),
+    ('SLICING_PRMS.height_scale_kwargs.min_range', [1, 20000, 1499.5]),
+    ('GROUPING_PRMS.height_pad_perc', [0, 100, 12.5]),
+    ('GROUPING_PRMS.dt_scale', [1, 100000, 17.5]),
     ('GROUPING_PRMS.height_scale_range', [[1, 1], [100, 100], [1, 5000]]),
     ('LAYERING_PRMS.min_okta_to_split', [0, 8, 9]),
     ('LAYERING_PRMS.gmm_kwargs.scores', ['AIC']),
     ('LAYERING_PRMS.gmm_kwargs.mode', ['prob']),
     ('LAYERING_PRMS.gmm_kwargs.min_prob', [0.5]),
     ('LAYERING_PRMS.gmm_kwargs.delta_mul_gain', [0.5, 1.0]),
-    ('LAYERING_PRMS.gmm_kwargs.rescale_0_to_x', [None, 1]),
+    ('LAYERING_PRMS.gmm_kwargs.rescale_0_to_x', [None, 1, 99.5]),
 ]
 
 # coupled leaves that only make sense together
